@@ -10,6 +10,8 @@
 (* Mode "tree": feed a sequence cut into up to K contiguous chunks (empty  *)
 (*              chunks allowed), then merge adjacent chunks in any order   *)
 (*              and either direction -- every binary merge tree.           *)
+(* Mode "rayon": the fold/reduce shape of parallel collection: leaves that  *)
+(*              merge their accumulator into an empty identity, then joins. *)
 (* Mode "hist": arbitrary interleavings of add / merge / clone / fresh /   *)
 (*              checkpoint over the slots, to a depth bound.               *)
 (***************************************************************************)
@@ -65,6 +67,27 @@ TreeNext == \/ \E x \in Alphabet : Feed(x)
             \/ Cut \/ Seal
             \/ \E i \in 1..K, fwd \in BOOLEAN : MergeAdj(i, fwd)
 
+\* ---------------------------------------------------------------- rayon
+\* The shape impl_from_par_iterator! produces (Rayon.tla): leaf i folds its items into a fresh
+\* accumulator (slot 2i) and merges it into a fresh reduce identity (slot 2i-1); completed
+\* adjacent results are joined left.merge(right) in any order.  K = number of slots / 2 leaves.
+Leaves == K \div 2
+TotalFed == SumSeq([i \in 1..Leaves |-> Len(data[2 * i])])
+RFeed(x) == /\ phase = "feed" /\ TotalFed < MaxLen
+            /\ Add(2 * cur, x) /\ Log(<<"add", 2 * cur, x>>)
+            /\ UNCHANGED <<cur, phase, live>>
+RCut     == /\ phase = "feed" /\ cur < Leaves
+            /\ Merge(2 * cur - 1, 2 * cur) /\ Log(<<"merge", 2 * cur - 1, 2 * cur>>)
+            /\ cur' = cur + 1
+            /\ UNCHANGED <<phase, live>>
+RSeal    == /\ phase = "feed"
+            /\ Merge(2 * cur - 1, 2 * cur) /\ Log(<<"merge", 2 * cur - 1, 2 * cur>>)
+            /\ phase' = "merge" /\ live' = [i \in 1..cur |-> 2 * i - 1]
+            /\ UNCHANGED cur
+RayonNext == \/ \E x \in Alphabet : RFeed(x)
+             \/ RCut \/ RSeal
+             \/ \E i \in 1..Leaves : MergeAdj(i, TRUE)
+
 \* ---------------------------------------------------------------- hist
 HistNext ==
     /\ Len(hist) < MaxDepth
@@ -79,6 +102,7 @@ HistNext ==
 
 GNext == CASE Mode = "seq"  -> SeqNext
            [] Mode = "tree" -> TreeNext
+           [] Mode = "rayon" -> RayonNext
            [] Mode = "hist" -> HistNext
 
 GSpec == GInit /\ [][GNext]_gvars
